@@ -52,7 +52,7 @@ package pod_info
 //@ define admittedCount(pod *v1.Pod) int = ite(resources.hasCount(pod), resources.piVal(resources.countStr(pod)), 1)
 
 //@ func (*PodInfo).updatePodAdditionalFields
-//@   props C19 C10
+//@   props C19 C10 C12
 //@   ieee
 //@   requires pi != nil && pi.Pod != nil && pi.ResReq != nil
 //@   requires !pi.IsLegacyMIGtask && pi.VectorMap != nil && pi.ResourceRequestType == RequestTypeRegular   // as set by the constructor, its only caller
@@ -65,6 +65,10 @@ package pod_info
 // request altogether and are outside the property: clauses are stated for pods without one.)
 // Before fix 1c0b67c: red for "NaN" (portion NaN, count 0), for gpu-memory above MaxInt64 (scheduler saw no
 // GPU request) and for a device count above MaxInt64 (scheduler used 1).
+// C12 "charge GPU groups in every snapshot": while a BindRequest that selected GPU groups is alive, the
+// snapshot charges exactly those groups - whatever gpu-group labels the pod carries at that moment (the
+// binder labels one group per ReserveGpuDevice call, and a failed attempt may leave a stale label).
+//@   ensures [live-bindrequest-groups-win] bindRequest != nil && len(bindRequest.BindRequest.Spec.SelectedGPUGroups) > 0 ==> pi.GPUGroups == bindRequest.BindRequest.Spec.SelectedGPUGroups
 //@   ensures [agree-fraction] admitted(pi.Pod) && resources.hasFrac(pi.Pod) && !pi.IsLegacyMIGtask ==> pi.ResourceRequestType == RequestTypeFraction && isfinite(pi.ResReq.portion) && pi.ResReq.portion == resources.pfVal(resources.fracStr(pi.Pod)) && fval(pi.ResReq.portion) > 0.0 && fval(pi.ResReq.portion) < 1.0 && pi.ResReq.gpuMemory == 0
 //@   ensures [agree-memory] admitted(pi.Pod) && resources.hasMem(pi.Pod) && !pi.IsLegacyMIGtask ==> pi.ResourceRequestType == RequestTypeGpuMemory && pi.ResReq.gpuMemory == resources.piVal(resources.memStr(pi.Pod)) && pi.ResReq.gpuMemory >= 1 && pi.ResReq.portion == 0.0
 //@   ensures [agree-count] admitted(pi.Pod) && (resources.hasFrac(pi.Pod) || resources.hasMem(pi.Pod)) && !pi.IsLegacyMIGtask ==> pi.ResReq.count == admittedCount(pi.Pod) && pi.ResReq.count >= 1
@@ -152,3 +156,8 @@ package pod_info
 // NewTaskInfoWithBindRequest / resourceClaimInfoFromPodClaims: not under contract.  Blockers (reported):
 // resource_info.ResourceClaimSliceToMap has no contract and (types.NamespacedName).String is an unmodelled
 // external; both havoc the heap, also inside loop 2 of resourceClaimInfoFromPodClaims.
+
+// (added by helper "alloc"; opt-in via `usestable`) the request type of a task is fixed by its constructor; task
+// slices handed around by the allocate path are not rewritten in place
+//@ stable PodInfo.ResourceRequestType
+//@ stable slicetype []*PodInfo
